@@ -101,3 +101,57 @@ func elemBasicKind(t types.Type) string {
 	}
 	return ""
 }
+
+// checkFuzzyThreaded: BytesRoughlyContains is an in-order subsequence test: what is left of the output after one input
+// byte was matched is where the search for the next input byte starts. (Searching the whole output for every byte
+// would accept the input's bytes in any order, e.g. an old echo still in the buffer.)
+func checkFuzzyThreaded(c *Ctx, r *Report) {
+	rule := "C01/fuzzy-consume"
+	outer := c.LookupFunc("util", "", "BytesRoughlyContains")
+	helper := c.LookupFunc("util", "", "bytesRoughlyContainsIterOutputForInputChar")
+	if outer == nil {
+		r.Anchor(rule, "util.BytesRoughlyContains")
+		return
+	}
+	if helper == nil {
+		r.Notes = append(r.Notes, rule+": the per-byte helper was not found (inlined or renamed); threading of the remaining output is not checked")
+		return
+	}
+	construct := "BytesRoughlyContains threads the remaining output through its iterations"
+	calls := staticCallsTo(outer, helper)
+	if len(calls) != 1 {
+		r.Unk(rule, construct, c.Pos(outer.Pos()), "the per-byte helper is not called exactly once")
+		return
+	}
+	call := calls[0].(*ssa.Call)
+	var rest ssa.Value
+	for _, ref := range *call.Referrers() {
+		if ex, ok := ref.(*ssa.Extract); ok && ex.Index == 1 {
+			rest = ex
+		}
+	}
+	arg := call.Call.Args[1]
+	threaded := false
+	if phi, ok := arg.(*ssa.Phi); ok && rest != nil {
+		for _, e := range phi.Edges {
+			if e == rest {
+				threaded = true
+			}
+		}
+	}
+	// the input byte comes from the range over the input parameter, in order
+	inOrder := false
+	if u, ok := call.Call.Args[0].(*ssa.UnOp); ok {
+		if ia, ok := u.X.(*ssa.IndexAddr); ok && ia.X == ssa.Value(outer.Params[0]) && rangeHeader(ia.Index) != nil {
+			inOrder = true
+		}
+	}
+	switch {
+	case !threaded:
+		r.Bad(rule, construct, c.Pos(call.Pos()), "each input byte is searched for in an output that is not what the previous iteration left over: the bytes of the input are then accepted in any order / overlapping, so stale bytes in the buffer can satisfy the echo test before the echo has arrived")
+	case !inOrder:
+		r.Bad(rule, construct, c.Pos(call.Pos()), "the input bytes are not taken in order by a range loop over the input")
+	default:
+		r.OK(rule, construct, c.Pos(call.Pos()), "range over the input; helper(inputByte, rest) with rest the helper's previous second result")
+	}
+}
